@@ -232,7 +232,7 @@ def validate_peek_past_ws(F, kinds):
             i = I.deref_val(st, idx)
             if b == ("abs", "cvec") and i[0] == "int" and isinstance(i[1], int):
                 if 0 <= i[1] < len(self.vec):
-                    return [(OK, ("tuple", (("enum", KIND + "::" + self.vec[i[1]], ()), ("abs", "toktext"))), st)]
+                    return [(OK, ("tuple", (("enum", KIND + "::" + self.vec[i[1]], ()), ("abs", "toktext", self.vec[i[1]]))), st)]
                 return [(PANIC, ("index out of bounds", n.get("sp")), st)]
             return None
 
